@@ -256,6 +256,14 @@ def call_lib(I, name, args, kwargs, node):
         if name.endswith("timedelta") and lv:
             return lv[0].derive("timedelta[" + ",".join(kwargs) + "]", "timedelta")
         return Top(f"{name}(...)", deps=lv)
+    if name.startswith("math.") and a and all(isinstance(x, Const) and isinstance(x.v, (int, float)) and not isinstance(x.v, bool) for x in a) and not kwargs:
+        import math as _math
+        fn = getattr(_math, name.split(".", 1)[1], None)
+        if callable(fn):
+            try:
+                return Const(fn(*[x.v for x in a]))
+            except Exception as e:
+                raise _Raise(f"{type(e).__name__} in {name}")
     if name.startswith("math."):
         return Top(f"{name}(...)", deps=[l for x in a for l in I.leaves(x)])
     if name in PURE_STDLIB and all(isinstance(x, Const) for x in a) and all(isinstance(x, Const) for x in kwargs.values()):
